@@ -440,6 +440,84 @@ def worker_updparams(which, seed, tier):
     return out
 
 
+ASMCLASS_UPD_FORM = 'f*inner(u,v)*dx + div(u)*div(v)*dx'
+
+
+def worker_asmclass(seed, tier, updatable):
+    """the Assembler-class route for vector-valued forms: ONE reused object, every format x layout (and field updates
+    in between), each result against the model fed with the blocks of the underlying assembler"""
+    import pyiga
+    from pyiga import assemble, mlmatrix
+    pyiga.set_max_threads(1)
+    out = {'name': 'asmclass' + ('-upd' if updatable else ''), 'status': 'ok', 'violations': [], 'reqs': [], 'counts': {}}
+    case = c01.make_case('vec22', seed, tier)
+    kvs = case['kvs0']; geo = case['geo']; rng = case['rng']; dim = 2
+    form = ASMCLASS_UPD_FORM if updatable else c01.FORMS['vec22'][2]
+    bfuns = [('u', 2), ('v', 2)]
+    desc = {'form': form, 'bfuns': bfuns, 'route': 'assemble.Assembler(...).assemble(format, layout)', 'seed': seed,
+            'kvs0': [(kv.kv.tolist(), kv.p) for kv in kvs], 'geometry': case['gkind']}
+    out['desc'] = desc
+    fields = [_field(kvs, rng) for _ in range(3)]
+    for sym in (False, True):
+        args = {'geo': geo}
+        if updatable:
+            args['f'] = fields[0]
+        a = c01.quiet_call(lambda: assemble.Assembler(form, kvs, args=dict(args), bfuns=bfuns, symmetric=sym, updatable=['f'] if updatable else []))
+        asm = a.asm
+        S = mlmatrix.MLStructure.from_kvs(*asm.kvs)
+        I, J = S.nonzero(); I = I.astype(np.int64); J = J.astype(np.int64)
+        M, N = S.shape
+        nc0, nc1 = asm.num_components()
+        bs = plist(S.bs, lambda b: '%d %d' % tuple(b))
+        bidx = plist(S.bidx, lambda p: plist(p.tolist(), lambda e: '%d %d' % tuple(e)))
+        nzs = fmt_pairs(I, J)
+        cfgs = [(l, f) for l in ('packed', 'blocked') for f in ('csr', 'csc', 'coo', 'bsr', 'mlb')]
+        for rnd in range(3 if updatable else 1):
+            upd = {}
+            if updatable and rnd > 0:
+                if rnd == 1:
+                    a.update(f=fields[1])
+                else:
+                    upd = {'f': fields[2]}          # passed through assemble(**upd_fields) with the first configuration
+            order = [cfgs[int(k)] for k in rng.permutation(len(cfgs))]
+            first = True
+            flat = None
+            for (layout, fmt) in order:
+                kw = upd if first else {}
+                def f():
+                    A = a.assemble(format=fmt, layout=layout, **kw)
+                    return canon(A.asmatrix() if fmt == 'mlb' else A)
+                got = guard(f)
+                first = False
+                if flat is None:       # blocks of the (updated) underlying assembler: the oracle
+                    flat = [np.asarray(asm.multi_blocks(np.array([[i, j]], dtype=np.uintp)))[0].ravel().tolist() for i, j in zip(I, J)]
+                    bl = plist(flat, lambda b: plist(b, frac))
+                    packed = np.zeros((M * nc1, N * nc0)); blocked = np.zeros((M * nc1, N * nc0))
+                    for (i, j, b) in zip(I, J, flat):
+                        B = np.array(b).reshape(nc1, nc0)
+                        packed[i * nc1:(i + 1) * nc1, j * nc0:(j + 1) * nc0] = B
+                        for r in range(nc1):
+                            for c in range(nc0):
+                                blocked[r * M + i, c * N + j] = B[r, c]
+                out['counts']['Assembler-class configurations'] = out['counts'].get('Assembler-class configurations', 0) + 1
+                if got.startswith('err'):
+                    out['violations'].append(('asmclass-raises', 'Assembler.assemble(format=%s, layout=%s) raised %s (symmetric=%s, round %d)' % (fmt, layout, got, sym, rnd), desc, True))
+                    continue
+                if layout == 'packed' and fmt == 'bsr':
+                    req = 'vecbsr %d %d %d %d %s %s' % (sym, dim, nc1, nc0, nzs, bl)
+                else:
+                    req = 'vecgen %d %d %d %d %s %s %s %s' % (sym, layout == 'blocked', nc0, nc1, bs, bidx, nzs, bl)
+                out['reqs'].append(('drv_c08', req, got, 'Assembler class sym=%s layout=%s fmt=%s round=%d' % (sym, layout, fmt, rnd)))
+                # model-free: dense reference of that layout from the blocks
+                ref = packed if layout == 'packed' else blocked
+                Ad = a.assemble(format='csr', layout=layout).toarray()
+                tol = (SYM_TOL if sym else 0.0) * float(np.max(np.abs(ref)))
+                if Ad.shape != ref.shape or np.max(np.abs(Ad - ref)) > tol:
+                    out['violations'].append(('asmclass-layout', 'Assembler(...).assemble(layout=%r) (symmetric=%s, after %d updates) is not the %s matrix of the assembler\'s blocks (max |diff| %.3g)'
+                                              % (layout, sym, rnd, layout, float(np.max(np.abs(Ad - ref))) if Ad.shape == ref.shape else float('nan')), desc, True))
+    return out
+
+
 def worker_threads(nthreads, seed, tier):
     """everything again with a given thread count: returns digests of the raw result arrays"""
     import pyiga
@@ -499,6 +577,10 @@ def worker(name, seed, tier, **kw):
         return worker_update(seed, tier, False)
     if name == 'update-stale':
         return worker_update(seed, tier, True)
+    if name == 'asmclass':
+        return worker_asmclass(seed, tier, False)
+    if name == 'asmclass-upd':
+        return worker_asmclass(seed, tier, True)
     if name == 'parlay':
         # parameters of shape (d,), (d,d) in every memory layout, at construction and through update_params (oracle: C01)
         return c01.worker('parlay', seed, tier)
@@ -688,13 +770,15 @@ def make_jobs(ctx):
              {'name': 'update', 'seed': int(ctx.seed * 1000003 + 32), 'tier': ctx.tier},
              {'name': 'update2', 'seed': int(ctx.seed * 1000003 + 35), 'tier': ctx.tier},
              {'name': 'parlay', 'seed': int(ctx.seed * 1000003 + 39), 'tier': ctx.tier},
+             {'name': 'asmclass', 'seed': int(ctx.seed * 1000003 + 40), 'tier': ctx.tier},
+             {'name': 'asmclass-upd', 'seed': int(ctx.seed * 1000003 + 41), 'tier': ctx.tier},
              {'name': 'updparams0', 'seed': int(ctx.seed * 1000003 + 36), 'tier': ctx.tier},
              {'name': 'updparams1', 'seed': int(ctx.seed * 1000003 + 37), 'tier': ctx.tier},
              {'name': 'updparams2', 'seed': int(ctx.seed * 1000003 + 38), 'tier': ctx.tier},
              {'name': 'update-stale', 'seed': int(ctx.seed * 1000003 + 33), 'tier': ctx.tier},
              {'name': 'update-stale2', 'seed': int(ctx.seed * 1000003 + 34), 'tier': ctx.tier}]
     # compiled things first
-    order = {'bbox': 0, 'update': 0, 'update2': 0, 'update-stale': 0, 'update-stale2': 0, 'updparams0': 0, 'updparams1': 0, 'updparams2': 0, 'parlay': 0}
+    order = {'bbox': 0, 'update': 0, 'update2': 0, 'update-stale': 0, 'update-stale2': 0, 'updparams0': 0, 'updparams1': 0, 'updparams2': 0, 'parlay': 0, 'asmclass': 0, 'asmclass-upd': 0}
     jobs.sort(key=lambda j: order.get(j['name'], 0 if isinstance(c01.FORMS.get(j['name'], (0, 0, ''))[2], str) else 1))
     tjobs = [{'name': 'threads%d' % n, 'seed': int(ctx.seed * 1000003 + 555), 'tier': ctx.tier} for n in THREAD_COUNTS]
     return jobs, tjobs
@@ -736,6 +820,13 @@ def run(ctx):
         if res is not None and res.get('status') == 'timeout':
             from .common import InfraError
             raise InfraError('worker %s timed out (machine overloaded?)' % name)
+        if res is not None and str(res.get('status', '')).startswith('crashed rc=-'):
+            import signal as _sig
+            sg = int(res['status'].split('rc=-')[1])
+            ctx.violation('impl-crash:%s' % (_sig.Signals(sg).name if sg in [x.value for x in _sig.Signals] else sg),
+                          'the interpreter was taken down by native code in worker %s (seed %s)' % (name, job['seed']),
+                          {'worker': name, 'seed': job['seed'], 'stderr': (res.get('trace') or '')[-800:]}, True)
+            continue
         if res is None or res.get('status') != 'ok':
             ctx.obligation('worker %s' % name, False, str((res or {}).get('status')) + ' ' + str((res or {}).get('trace', ''))[-600:])
             ctx.violation('worker:' + name, 'harness worker %s failed: %s' % (name, (res or {}).get('status')), {'trace': (res or {}).get('trace', '')}, False)
